@@ -183,3 +183,32 @@ mut('C05_canceled_final_reported_failed', COMP,
 mut('C05_staging_output_skips_exit_code_check', 'agent/staging_output/default.py',
     "                if task['target_state'] != rps.DONE \\",
     "                if task['target_state'] == rps.DONE \\")
+
+LMB = 'agent/launch_method/base.py'
+mut('C10_args_not_quoted', LMB,
+    "            return ' '.join([ru.sh_quote(arg) for arg in args])",
+    "            return ' '.join(['\"%s\"' % arg for arg in args])")
+mut('C10_rp_ranks_off_by_one', EB,
+    "        ret += 'export RP_RANKS=%s\\n' % n_ranks",
+    "        ret += 'export RP_RANKS=%s\\n' % (n_ranks - 1)")
+mut('C10_exit_code_dropped', EB,
+    "        tmp += self._get_prof('exec_stop')\n        tmp += 'exit $RP_RET\\n'",
+    "        tmp += self._get_prof('exec_stop')\n        tmp += 'exit 0\\n'")
+mut('C10_per_rank_case_shifted', EB,
+    "            ret += '    %d)\\n' % rank_id",
+    "            ret += '    %d)\\n' % (rank_id + 1)")
+mut('C10_env_values_unquoted_again', EB,
+    "                ret += 'export %s=%s\\n' % (key, ru.sh_quote(val))",
+    "                ret += 'export %s=\"%s\"\\n' % (key, val)")
+mut('C10_sub_address_from_pub', EB,
+    "        ctrl_sub_addr = self._reg['bridges.control_pubsub']['addr_sub']",
+    "        ctrl_sub_addr = self._reg['bridges.control_pubsub']['addr_pub']")
+mut('C10_cuda_devices_from_first_rank', EB,
+    "                    ','.join([str(g['index']) for g in slot['gpus']])",
+    "                    ','.join([str(g['index']) for g in slots[0]['gpus']])")
+mut('C10_failing_pre_exec_ignored', EB,
+    "        cmd_template    = '%s || rp_error %s\\n'",
+    "        cmd_template    = '%s || echo %s\\n'")
+mut('C10_stderr_into_stdout_file', EB,
+    "        ret += ') 1> \"%s\" \\\\\\n  2> \"%s\"\\n' % (task['stdout_file_short'],\n                                              task['stderr_file_short'])",
+    "        ret += ') 1> \"%s\" \\\\\\n  2> \"%s\"\\n' % (task['stdout_file_short'],\n                                              task['stdout_file_short'])")
